@@ -15,6 +15,7 @@ PredSet(name) ==
       [] name = "p1y" -> {P(<<1>>, 0), P(<<1>>, 1), P(<<-1>>, 0), P(<<-1>>, -1)}
       [] name = "p2x" -> {P(<<1, 0>>, 0), P(<<-1, 0>>, 0), P(<<0, 1>>, 0), P(<<1, 1>>, 1), P(<<-1, -1>>, -2), P(<<1, 0>>, -1)}
       [] name = "p2one" -> {P(<<1, 1>>, 1)}
+      [] name = "p1w" -> {P(<<1>>, 0), P(<<1>>, 1), P(<<-1>>, -1)}
       [] name = "p1a" -> {P(<<1>>, 0), P(<<1>>, 1), P(<<-1>>, 0)}
       [] name = "p1s" -> {P(<<1>>, 0), P(<<-1>>, -1)}
       [] name = "pp2s" -> {Aff(<<<<1, 0>>, <<0, 1>>>>, <<0, 1>>), P(<<1, 1>>, 1)}
